@@ -398,3 +398,19 @@ package htlcswitch
 //@   props C09
 //@   site store htlcPacket.amount: assert value == entry(amount)
 //@   site store UpdateAddHTLC.Amount: assert value == amount
+//@
+//@ // ---- a packet addressed by an alias, or by the confirmed SCID of a channel that has an alias, leaves with the link's BASE SCID: the
+//@ // ---- key under which the switch files the link's policy failures and the circuit
+//@ func (s *Switch) getLinkByMapping
+//@   props C09
+//@   loop * havoc
+//@   site store htlcPacket.outgoingChanID nth 0: assert value.BlockHeight == baseScid.BlockHeight && value.TxIndex == baseScid.TxIndex && value.TxPosition == baseScid.TxPosition
+//@   site store htlcPacket.outgoingChanID nth 1: assert value.BlockHeight == baseScid.BlockHeight && value.TxIndex == baseScid.TxIndex && value.TxPosition == baseScid.TxPosition
+//@
+//@ // ---- a batch policy update reaches every live link of the batch: a channel point without a link is skipped, the batch goes on (the
+//@ // ---- only way out of the function is the end of the loop)
+//@ func (s *Switch) UpdateForwardingPolicies
+//@   props C09
+//@   loop * havoc
+//@   site call UpdateForwardingPolicy: assert arg(1) == policy && arg(0) == link
+//@   single-exit
